@@ -17,7 +17,8 @@ each part of the claim) is the environment `push` calls into:
   iter()/into_iter()/next()/any() -> list iteration; the closure given to any() is executed from ITS OWN MIR
   format!/anyhow!/Clone/Deref/drop-> no effect on pool state
 
-Any call that is not in this table returns an opaque value; if such a call receives a mutable reference
+A call to a function of the analysed crate that is not in this table is executed from ITS OWN MIR (inlined), so moving
+logic into a helper keeps the check meaningful. Any other call that is not in this table returns an opaque value; if such a call receives a mutable reference
 into the pool, or a branch depends on an opaque value, the executor raises Unsupported and the check is
 inconclusive (never a violation)."""
 import re
@@ -570,6 +571,11 @@ class PoolExec:
             return [(S, V("bool", v=z3.Or(terms) if is_any else z3.And(terms)))]
         if re.search(r" as Clone>::clone$", c):
             return [(S, dv(args[0]))]
+        # ---- a function of the analysed crate that is not in the stub table: execute ITS MIR (keeps the check meaningful
+        # when logic is moved into a helper)
+        fn = self.same_crate_fn(c, len(args))
+        if fn is not None:
+            return self.inline_call(S, fn, args)
         # ---- everything else: no effect on the pool; must not get a mutable reference into it
         for a in args:
             if a.kind == "ref" and a.mut and a.target[0] == "heap":
@@ -578,6 +584,54 @@ class PoolExec:
                 raise Unsupported("unmodelled call with a mutable reference into a bucket: " + c[:80])
         self.unknown_calls.add(re.sub(r"<.*>", "<..>", c)[:80])
         return [(S, OPQ("call " + c[:40]))]
+
+    def same_crate_fn(self, callee, nargs):
+        """the MIR body of a same-crate function named at a call site, if it can be identified uniquely"""
+        if not re.match(r"^[A-Za-z_][\w:]*$", callee):        # generic / trait-qualified calls are never inlined
+            return None
+        tail = callee.split("::")[-1]
+        cands = []
+        for name, fl in self.fns.items():
+            if "{closure" in name or not (name == callee or name.endswith("::" + tail)):
+                continue
+            for f in fl:
+                if len(f.params) == nargs:
+                    cands.append((name, f))
+        if "::" in callee:      # Type::method -> the impl block's function whose receiver mentions Type
+            ty = callee.split("::")[-2]
+            cands = [(n, f) for n, f in cands if "impl at" in n and f.params and ty in f.params[0][1]] or [(n, f) for n, f in cands if n.endswith(callee)]
+        names = {n for n, _ in cands}
+        if len(names) != 1:
+            return None
+        return cands[0][1]
+
+    def inline_call(self, S, fn, args, depth=0):
+        if getattr(self, "_inline_depth", 0) > 4:
+            raise Unsupported("inlining too deep: " + fn.name[-40:])
+        env = {}
+        for (idx, _), a in zip(fn.params, args):
+            # a reference to a caller local is handed over as a reference to its current VALUE (writes through it are refused)
+            if a.kind == "ref" and a.target[0] == "local":
+                a = V("ref", target=("val", self.deref(S, a)), mut=a.mut)
+            env[idx] = a
+        sub = State(env, S.heap, dict(S.st), list(S.pc), list(S.events), list(S.t_seen))
+        res = []
+        self._inline_depth = getattr(self, "_inline_depth", 0) + 1
+        try:
+            self.run_fn(fn, sub, res)
+        finally:
+            self._inline_depth -= 1
+        out = []
+        for (S2, outcome, ret) in res:
+            if outcome != "return":
+                if not hasattr(self, "inlined_panics"):
+                    self.inlined_panics = []
+                self.inlined_panics.append((S2, outcome + " (inside " + fn.name[-40:] + ")"))
+                continue
+            S3 = State(dict(S.env), S2.heap, S2.st, S2.pc, S2.events, S2.t_seen)
+            out.append((S3, ret if ret is not None else V("tuple", items=[])))
+        self.inlined = getattr(self, "inlined", set()) | {fn.name}
+        return out
 
     def store_through(self, S, ref, val):
         t = ref.target
@@ -705,6 +759,7 @@ class PoolExec:
         S = State(env, heap, st, [], [], [])
         sink = []
         self.run_fn(fn, S, sink)
+        sink += [(S2, outcome, None) for (S2, outcome) in getattr(self, "inlined_panics", [])]
         self.paths = sink
         return sink
 
